@@ -118,7 +118,7 @@ func c01PutCancelled(c *core.Ctx) {
 	b := newBuffer(cleanerSpec{}, cooldown, func(inner bigbuff.Cleaner) bigbuff.Cleaner {
 		return func(size int, offsets []int) int {
 			if armed.CompareAndSwap(true, false) {
-				gateP.Load().Enter(3000) // one cleaner evaluation is held open (falls through after the bound)
+				gateP.Load().Enter(300) // one cleaner evaluation is held open (falls through after a short bound: it may have caught the ordinary Put instead)
 			}
 			return inner(size, append([]int(nil), offsets...))
 		}
